@@ -1,6 +1,6 @@
 //! C07 — no source line is silently dropped; a bad line affects only itself.
 //!
-//! Space: all files of up to m lines over a 20-kind line alphabet (8 good,
+//! Space: all files of up to m lines over a 21-kind line alphabet (9 good,
 //! 12 bad) x line ending {LF, CRLF} x final newline {yes, no}, as base file and
 //! (one cut) with the tail in an included file.
 
@@ -39,8 +39,9 @@ pub enum LineKind {
     BadStringEscape,
     BadStringTrailingBackslash,
     BadCharTrailingBackslash,
+    JalrOneOperand,
 }
-pub const KINDS: [LineKind; 20] = [
+pub const KINDS: [LineKind; 21] = [
     LineKind::Inst,
     LineKind::LabelInst,
     LineKind::Label,
@@ -61,6 +62,7 @@ pub const KINDS: [LineKind; 20] = [
     LineKind::BadStringEscape,
     LineKind::BadStringTrailingBackslash,
     LineKind::BadCharTrailingBackslash,
+    LineKind::JalrOneOperand,
 ];
 
 impl LineKind {
@@ -106,6 +108,7 @@ impl LineKind {
             LineKind::BadStringEscape => "bad-string-escape",
             LineKind::BadStringTrailingBackslash => "bad-string-trailing-backslash",
             LineKind::BadCharTrailingBackslash => "bad-char-trailing-backslash",
+            LineKind::JalrOneOperand => "jalr-one-operand",
         }
     }
     /// text of the line; `i` makes labels unique
@@ -131,6 +134,7 @@ impl LineKind {
             LineKind::BadStringEscape => "    .asciz \"a\\qb\"".into(),
             LineKind::BadStringTrailingBackslash => "    .asciz \"ab\\".into(),
             LineKind::BadCharTrailingBackslash => "    li a0, '\\".into(),
+            LineKind::JalrOneOperand => "    jalr t0".into(),
         }
     }
 }
